@@ -710,7 +710,8 @@ class Gen(object):
         if sp == "big":
             return
         By = max(bx, bw)
-        if rng.random() < 0.55 or sp is None or boundary:
+        if rng.random() < 0.55 or sp is None or (boundary and rng.random() < 0.5):
+            # (the other half of the boundary cases — padding / stride / dilation near 2^31 and 2^32 — goes to the backward kernel)
             pair = self.emit("conv2d_fw %s %s %s" % (x.tok(), w.tok(), args), "exact", "fw", spec=sp)
             if pair and sp is not None and By > 1 and (batched or rng.random() < 0.6) and not boundary:
                 self.samples(pair, "conv2d_fw", [x, w], args, "fw", By, "exact")
@@ -725,6 +726,29 @@ class Gen(object):
             pair = self.emit("conv2d_bw %s %s %s %s %s %s %s" % (x.tok(), w.tok(), y.tok(), gy.tok(), gx.tok(), gw.tok(), args), "exact", "bw")
             if pair and zero_init and By > 1:
                 self.samples(pair, "conv2d_bw", [x, w, y, gy, gx, gw], args, "bw", By, "exact", grads=[(4, bx), (5, bw)])
+
+    def conv_wrap(self, i):
+        """Deterministic cycle: padding == stride near 2^32 (2^32-1, 2^32-2, 2^31) on one axis of a tiny image with a 1x1
+        filter — window positions whose 32-bit value would wrap back inside the image — forward and backward."""
+        rng = self.rng
+        combos = [(H, Wd, big) for H in (2, 3) for Wd in (1, 2, 3) for big in (2 ** 32 - 1, 2 ** 32 - 2, 2 ** 31)]
+        H, Wd, big = combos[i % len(combos)]
+        if (i // len(combos)) % 2 == 0:
+            p0, s0, p1, s1 = big, big, 0, 1
+        else:
+            p0, s0, p1, s1 = 0, 1, big, big
+        x = rtensor(rng, trim([H, Wd]), 1, "int", -3, 3)
+        w = rtensor(rng, [], 1, "int", 1, 2)
+        args = "%d %d %d %d 1 1" % (p0, p1, s0, s1)
+        sp = spec_conv2d(x, w, p0, p1, s0, s1, 1, 1)
+        if sp is None or sp == "big":
+            return
+        self.emit("conv2d_fw %s %s %s" % (x.tok(), w.tok(), args), "exact", "fw", spec=sp)
+        y = rtensor(rng, sp.dims, 1, "int", -2, 2)
+        gy = rtensor(rng, sp.dims, 1, "int", 1, 3)
+        gx = rtensor(rng, x.dims, 1, "int", -2, 2).zeros()
+        gw = rtensor(rng, w.dims, 1, "int", -2, 2).zeros()
+        self.emit("conv2d_bw %s %s %s %s %s %s %s" % (x.tok(), w.tok(), y.tok(), gy.tok(), gx.tok(), gw.tok(), args), "exact", "bw")
 
     def pool(self, boundary=False):
         rng = self.rng
@@ -755,7 +779,7 @@ class Gen(object):
         sp = None if bad else spec_max_pool2d(x, w0, w1, p0, p1, s0, s1)
         if sp == "big":
             return
-        if rng.random() < 0.5 or sp is None or boundary:
+        if rng.random() < 0.5 or sp is None or (boundary and rng.random() < 0.5):
             pair = self.emit("max_pool2d_fw %s %s" % (x.tok(), args), "exact", "fw", spec=sp)
             if pair and sp is not None and bx > 1 and rng.random() < 0.6 and not boundary:
                 self.samples(pair, "max_pool2d_fw", [x], args, "fw", bx, "exact")
@@ -805,6 +829,12 @@ class Gen(object):
             self.emit("%s %s K:%s" % (which, x.tok(), vtok(k)), "exact", "fw")
             return
         (bx, by), B = batches(rng, 2)
+        if rng.random() < 0.3:
+            # a larger minibatch folded into a shared destination (what reaches every Parameter gradient): sizes on both
+            # sides of 8 and 16, powers of two and not
+            bx, by = rng.choice([7, 8, 9, 10, 12, 15, 16, 17, 24]), 1
+            B = bx
+            dims = rdims(rng, 2)
         x = rtensor(rng, dims, bx, kind)
         y = rtensor(rng, dims, by, kind)
         r = rng.random()
@@ -1073,6 +1103,8 @@ def streams(rng, tier):
     for i in range(12 if tier == "quick" else 200):
         g.conv2d(boundary=True)
         g.pool(boundary=True)
+    for i in range(12 if tier == "quick" else 36):
+        g.conv_wrap(i if tier != "quick" else rng.randrange(36))
     for i in range(24 if tier == "quick" else 300):
         g.conv2d(batched=True)
     quick = tier == "quick"
@@ -1362,6 +1394,14 @@ def run_family(chk, prop):
                 if w:
                     chk.report("karith:%s:batch-law:%s" % (m["kernel"], line.split(" ")[0]), "`%s`: %s" % (line[:300], w),
                                replay_obj([line] + m["samples"], observed_impl=got[line][0]))
+            # the fold of a minibatch into a shared destination (x[B] added into y[1]: the sum over the samples) is what
+            # carries every gradient into a batch-1 operand; exact on the integer / dyadic data of these lines
+            for line, m in meta.items():
+                impl, model = got[line]
+                if m["kernel"] in ("inplace_add", "inplace_subtract") and line in dis_lines and impl.startswith("ok") and model.startswith("ok"):
+                    chk.report("karith:%s:batch-fold:%s" % (m["kernel"], line.split(" ")[0]),
+                               "the sum over the samples folded into a shared destination is wrong: " + what_line(line),
+                               replay_obj([line], observed_impl=impl, model=model))
     # correspondence failures not attributable to a property of this run (e.g. acceptance differs)
     for d in dis:
         if d["impl"].startswith("crash"):
